@@ -7,7 +7,6 @@ package c05
 import (
 	"bytes"
 	"encoding/json"
-	"errors"
 	"fmt"
 	"os"
 	"sort"
@@ -22,7 +21,6 @@ import (
 	"github.com/KevoDB/kevo/pkg/common/iterator/filtered"
 	"github.com/KevoDB/kevo/pkg/engine"
 	"github.com/KevoDB/kevo/pkg/engine/storage"
-	"github.com/KevoDB/kevo/pkg/wal"
 
 	"verif/internal/drive"
 	"verif/internal/ev"
@@ -410,25 +408,6 @@ func runQuery(e *engine.EngineFacade, m drive.Model, p *drive.Program, tg [][]by
 	return &failure{"bad-query", q.Kind}
 }
 
-// retire makes every write durable in SSTables and drops the flushed log files.
-func retire(e *engine.EngineFacade) error {
-	drive.Quiesce(e)
-	// flush immutables and then the active table (FlushMemTables flushes the
-	// active table only when no immutable is pending)
-	for i := 0; i < 3; i++ {
-		if err := e.FlushImMemTables(); err != nil {
-			return err
-		}
-		drive.Quiesce(e)
-	}
-	w := e.GetWAL()
-	if w == nil {
-		return errors.New("no WAL")
-	}
-	_, err := w.ManageRetention(wal.WALRetentionConfig{MaxFileCount: 1})
-	return err
-}
-
 type layerStats struct {
 	layers     int
 	multiLayer bool
@@ -458,13 +437,7 @@ func runCase(c *Case) (*failure, []string, bool) {
 	switches := 0
 	for i := range p.Steps {
 		if p.Steps[i].Op == "retire" {
-			if err := retire(r.Eng); err != nil {
-				ev.R().Count("retire_errors", 1)
-			} else {
-				retired = true
-			}
-			r.LastMaint = "retire"
-			continue
+			retired = true
 		}
 		mm, err := r.Do(i)
 		if mm != nil {
